@@ -128,6 +128,22 @@ func (r *outRun) stmts(list []ast.Stmt) {
 			}
 		case *ast.ForStmt:
 			v, init, bound, op, step, ok := forHeader(info, st)
+			body := st.Body.List
+			if !ok {
+				// several variables in the clauses: the one the condition tests counts the
+				// iterations, the others are set up before the loop and advanced at the end
+				// of each iteration like any other induction variable
+				var pre, post ast.Stmt
+				if v, init, bound, op, pre, post, ok = splitHeader(info, st); ok {
+					step = nil
+					if pre != nil {
+						r.ev.exec([]ast.Stmt{pre})
+					}
+					if post != nil {
+						body = append(append([]ast.Stmt{}, body...), post)
+					}
+				}
+			}
 			lo, ok1 := r.ev.eval(orExpr(init))
 			hi, ok2 := r.ev.eval(orExpr(bound))
 			if !ok || step != nil || !ok1 || !ok2 || objOf(info, v) == nil {
@@ -139,11 +155,13 @@ func (r *outRun) stmts(list []ast.Stmt) {
 			}
 			name := r.fresh()
 			vo := objOf(info, v)
-			r.loop(name, lo, hi, st.Body.List, func() { r.ev.env[vo] = sym(name) }, vo)
+			r.loop(name, lo, hi, body, func() { r.ev.env[vo] = sym(name) }, vo)
 		case *ast.RangeStmt:
-			over := pat.Same(info, st.X, r.it.arr) && r.it.appended
-			if r.it.num != nil && pat.Expr("_arr[:_num]").Match(info, st.X, pat.Binds{"_arr": r.it.arr, "_num": r.it.num}) != nil {
-				over = true
+			over := r.it.isArr(st.X) && r.it.appended
+			if r.it.num != nil {
+				if b := pat.Expr("_arr[:_num]").Match(info, st.X, pat.Binds{"_num": r.it.num}); b != nil && r.it.isArr(b["_arr"].(ast.Expr)) {
+					over = true
+				}
 			}
 			if !over {
 				r.undf(st, "range over something else than the kept positions")
@@ -199,6 +217,102 @@ func (r *outRun) stmts(list []ast.Stmt) {
 			r.undf(st, "statement kind %T in the copy-out phase", st)
 		}
 	}
+}
+
+// splitHeader reads `for v, w := lo, x; v < hi; v, w = v+1, f(w)`: the variable
+// the condition tests (v, advancing by one) and, as separate statements, the
+// initialisation and the per-iteration update of the remaining variables.
+func splitHeader(info *types.Info, f *ast.ForStmt) (v, init, bound ast.Expr, op token.Token, pre, post ast.Stmt, ok bool) {
+	if f.Init == nil || f.Post == nil || f.Cond == nil {
+		return
+	}
+	as, isAs := f.Init.(*ast.AssignStmt)
+	cb, isBin := ast.Unparen(f.Cond).(*ast.BinaryExpr)
+	if !isAs || !isBin || len(as.Lhs) != len(as.Rhs) || as.Tok != token.DEFINE && as.Tok != token.ASSIGN {
+		return
+	}
+	var vo types.Object
+	switch cb.Op {
+	case token.LSS, token.LEQ:
+		vo, bound, op = objOf(info, cb.X), cb.Y, cb.Op
+	case token.GTR, token.GEQ:
+		vo, bound, op = objOf(info, cb.Y), cb.X, map[token.Token]token.Token{token.GEQ: token.LEQ, token.GTR: token.LSS}[cb.Op]
+	}
+	if vo == nil {
+		return
+	}
+	preAs := &ast.AssignStmt{Tok: as.Tok, TokPos: as.TokPos}
+	for i, l := range as.Lhs {
+		if objOf(info, l) == vo {
+			v, init = l, as.Rhs[i]
+		} else {
+			preAs.Lhs, preAs.Rhs = append(preAs.Lhs, l), append(preAs.Rhs, as.Rhs[i])
+		}
+	}
+	if v == nil {
+		return
+	}
+	bd := pat.Binds{"_i": v}
+	unit := func(st ast.Stmt) bool {
+		return pat.Stmt("_i++").Match(info, st, bd) != nil || pat.Stmt("_i += 1").Match(info, st, bd) != nil || pat.Stmt("_i = _i + 1").Match(info, st, bd) != nil
+	}
+	advanced := false
+	postAs := &ast.AssignStmt{Tok: token.ASSIGN}
+	switch p := f.Post.(type) {
+	case *ast.AssignStmt:
+		if len(p.Lhs) == 1 {
+			if advanced = unit(p); !advanced {
+				return
+			}
+			break
+		}
+		if len(p.Lhs) != len(p.Rhs) || p.Tok != token.ASSIGN {
+			return
+		}
+		postAs.TokPos = p.TokPos
+		assigned := map[types.Object]bool{}
+		for _, l := range p.Lhs {
+			if o := objOf(info, l); o != nil {
+				assigned[o] = true
+			} else {
+				return
+			}
+		}
+		for i, l := range p.Lhs {
+			if objOf(info, l) == vo {
+				advanced = unit(&ast.AssignStmt{Lhs: []ast.Expr{l}, Tok: token.ASSIGN, Rhs: []ast.Expr{p.Rhs[i]}})
+				continue
+			}
+			// the values on the right are those before the update: only the variable itself may occur
+			clash := false
+			ast.Inspect(p.Rhs[i], func(n ast.Node) bool {
+				if id, isId := n.(*ast.Ident); isId {
+					if o := info.Uses[id]; o != nil && assigned[o] && o != objOf(info, l) && o != vo {
+						clash = true
+					}
+				}
+				return true
+			})
+			if clash {
+				return
+			}
+			postAs.Lhs, postAs.Rhs = append(postAs.Lhs, l), append(postAs.Rhs, p.Rhs[i])
+		}
+	case *ast.IncDecStmt:
+		advanced = unit(p)
+	default:
+		return
+	}
+	if !advanced {
+		return
+	}
+	if len(preAs.Lhs) > 0 {
+		pre = preAs
+	}
+	if len(postAs.Lhs) > 0 {
+		post = postAs
+	}
+	return v, init, bound, op, pre, post, true
 }
 
 func orCall13(c *ast.CallExpr) *ast.CallExpr {
